@@ -687,7 +687,7 @@ func main() {
 	if f := os.Getenv("VERIF_REPLAY"); f != "" {
 		doReplay(f)
 	}
-	r := ev.Start("C14", "exploration", 150*time.Second, 18*time.Minute)
+	r := ev.Start("C14", "exploration", 4*time.Minute, 30*time.Minute)
 	scratch := scratchDir()
 	items, st, err := harvest.Run(ev.RepoDir(), scratch, r.ParallelFor)
 	if err != nil {
